@@ -50,12 +50,14 @@ Exec(x, i) ==
     [] i.k = "ldm"  -> ExecLDM(x, i)
     [] i.k = "stm"  -> ExecSTM(x, i)
     [] i.k = "coproc" -> ExecCoproc(x, i)
+    [] i.k = "ldrex" -> ExecLDREX(x, i)
+    [] i.k = "strex" -> ExecSTREX(x, i)
     [] i.k = "udf"  -> Raise(x, "undef")
     [] i.k = "svc"  -> Raise(x, "svc")
     [] OTHER -> NotImpl(x, "spec-missing:" \o i.k)
 Executable == {"dp", "adr", "movw", "movt", "b", "bl", "blxr", "bx", "cbz", "it", "udf", "svc", "ls", "lsd", "ldm", "stm", "tb",
                "msr", "mrs", "cps", "setend", "hint", "excret", "rfe", "srs", "ldmx", "stmu", "smc",
-               "mul", "hmul", "div", "qarith", "sat", "par", "misc", "coproc"}
+               "mul", "hmul", "div", "qarith", "sat", "par", "misc", "coproc", "ldrex", "strex"}
 
 \* the fetch: act = [n |-> "Step"] reads memory at PC; act = [n |-> "Exec", w, len] uses the given word
 FetchInstr(x, act) ==
